@@ -24,6 +24,9 @@ LENS = [0, 1, 5, 6, 7, 8, 9, 10, 11, 12, 99, 100, 101, 102]
 ALLOWED = {'foop/': [('intd/', 0), ('mess/', 1)], 'todo/': [('intd/', 0), ('todo/', 0)]}
 
 
+from rules import libtab
+
+
 class CleanHooks(QHooks):
     tracked = frozenset(['G:line'])
     precise = frozenset(['L:i'])
@@ -233,16 +236,187 @@ def lint_literal_lengths(db, rep):
     return r
 
 
+class CleanSession(libtab.SAConc, QHooks):
+    """qmail-clean main() fed a concrete sequence of requests: which files it unlinks and what it answers"""
+    SPLIT = 23
+
+    def __init__(self, requests, fail_at=None):
+        self.requests = requests          # list of bytes, each including its terminating NUL (or not, for the last fragment)
+        self.fail_at = fail_at            # (request index, unlink number within it, errno): that unlink fails
+        self.ends = []
+
+    def tracked_global(self, path):
+        return True
+
+    def precise_arith(self, path):
+        return True
+
+    def materialize(self, E, path):
+        if path == 'G:auto_split':
+            return fs(self.SPLIT)
+        if path in ('G:error_noent', 'E:error_noent'):
+            return fs(2)
+        return TOP
+
+    def ev(self, E, e):
+        E.set('$ev', fs(tuple(libtab._one(E.get('$ev')) or ()) + (e,)))
+
+    def _ok0(self, E, x, args):
+        return [Outcome(ret=fs(0))]
+
+    def _n(self, E, x, args):
+        return [Outcome(ret=TOP)]
+
+    prim_chdir = _ok0
+    prim_sig_pipeignore = prim_cleanuppid = _n
+
+    def prim_getln(self, E, x, args):
+        k = libtab._one(E.get('$k')) or 0
+        mp = libtab._one(args[2])
+        if not (isinstance(mp, tuple) and mp[0] == '&'):
+            raise AnalysisBroken('qmail-clean main: getln() is not handed the address of its match flag')
+        if k >= len(self.requests):
+            return [Outcome(ret=fs(0), sets={mp[1]: fs(0), '$k': fs(k + 1)}, log='end of input')]
+        req = self.requests[k]
+        o = self._put(E, x, args[1:2], req, False)[0]
+        return [Outcome(ret=fs(0), sets=dict(o.sets, **{mp[1]: fs(1 if req.endswith(b'\0') else 0), '$k': fs(k + 1), '$req': fs(k), '$nunl': fs(0)}), log='request %r' % req)]
+
+    def prim_scan_ulong(self, E, x, args):
+        s_ = self.cstring(E, libtab._one(args[0]))
+        up = libtab._one(args[1])
+        if s_ is None or not (isinstance(up, tuple) and up[0] == '&'):
+            return [Outcome(ret=TOP)]
+        n = 0
+        while n < len(s_) and 48 <= s_[n] <= 57:
+            n += 1
+        return [Outcome(ret=fs(n), sets={up[1]: fs(int(s_[:n] or b'0') & 0xFFFFFFFFFFFFFFFF)})]
+
+    def prim_fmtqfn(self, E, x, args):
+        from qv.esp import ptr_add
+        buf, pre, idv, split = libtab._one(args[0]), self.cstring(E, libtab._one(args[1])), libtab._one(args[2]), libtab._one(args[3])
+        if pre is None or not isinstance(idv, int) or not isinstance(split, int) or not (isinstance(buf, tuple) and buf[0] == '&'):
+            raise AnalysisBroken('qmail-clean main: fmtqfn() with undetermined arguments')
+        name = pre + (b'%d/' % (idv % self.SPLIT) if split else b'') + b'%d' % idv + b'\0'
+        st = {}
+        for k, b_ in enumerate(name):
+            st[ptr_add(buf, k)[1]] = fs(b_)
+        return [Outcome(ret=fs(len(name)), sets=st)]
+
+    def prim_unlink(self, E, x, args):
+        name = self.cstring(E, libtab._one(args[0]))
+        r, k = libtab._one(E.get('$req')), libtab._one(E.get('$nunl')) or 0
+        self.ev(E, ('unlink', r, name))
+        sets = {'$nunl': fs(k + 1)}
+        if self.fail_at is not None and self.fail_at[:2] == (r, k):
+            return [Outcome(ret=fs(-1), sets=dict(sets, **{'$errno': fs(self.fail_at[2]), 'G:errno': fs(self.fail_at[2]), 'E:errno': fs(self.fail_at[2])}), log='unlink(%r) fails with errno %d' % (name, self.fail_at[2]))]
+        return [Outcome(ret=fs(0), sets=sets)]
+
+    def prim___errno_location(self, E, x, args):
+        return [Outcome(ret=fs(('&', '$errno')))]
+
+    def prim_respond(self, E, x, args):
+        self.ev(E, ('answer', libtab._one(E.get('$req')), self.cstring(E, libtab._one(args[0]))))
+        return [Outcome(ret=TOP)]
+
+    def on_return(self, E, fn, val):
+        if fn.name == 'main':
+            self.ends.append((tuple(libtab._one(E.get('$ev')) or ()), E.trace.list()))
+
+    def prim__exit(self, E, x, args):
+        self.ends.append((tuple(libtab._one(E.get('$ev')) or ()), E.trace.list()))
+        return 'noreturn'
+
+
+def clean_reference(req, fail=None, split=23):
+    """qmail-clean(8): (unlinks attempted, answer) for one request (bytes including the terminating NUL)"""
+    ok = 7 <= len(req) <= 100 and req.endswith(b'\0') and req[5:-1].isdigit() and req[:5] in (b'foop/', b'todo/')
+    if not ok:
+        return [], b'x'
+    idv = int(req[5:-1]) & 0xFFFFFFFFFFFFFFFF
+    names = [b'intd/%d' % idv, (b'mess/%d/%d' % (idv % split, idv)) if req[:5] == b'foop/' else b'todo/%d' % idv]
+    if fail is not None and fail[1] != 2:
+        return names[:fail[0] + 1], b'!'
+    return names, b'+'
+
+
 def explore_clean(db, rep):
+    """concrete sessions: valid and malformed requests, unlink failures; results under the instance names of the clauses"""
     prog = db.program('qmail-clean')
     main = prog.fn('main', 'qmail-clean.c')
-    H = CleanHooks()
-    eng = Engine(db, prog, H, max_states=600000)
-    eng.run(main)
-    rep.count_states(eng.states, eng.transitions)
-    if H.unlinks < 4 or H.responds < 5 or H.requests < 1:
-        raise AnalysisBroken('qmail-clean main: expected unlink/respond/getln sites not found (%d/%d/%d)' % (H.unlinks, H.responds, H.requests))
-    return H, eng
+    long_ok = b'foop/' + b'1' * 94 + b'\0'            # 100 bytes: the longest request accepted
+    reqs = [b'foop/12\0', b'todo/7\0', b'foop/0\0', b'todo/4294967297\0', b'foop/12a4\0', b'foop/a12\0', b'foop/12a\0', b'todoX77\0', b'todo/\0', b'foop/\0', b'foop7\0', b'\0',
+            b'mess/12\0', b'intd/12\0', b'FOOP/12\0', b'foop/12/3\0', b'foop/-1\0', b'foop/ 12\0', b'todo/../12\0', b'foop/' + b'1' * 95 + b'\0', long_ok, b'todo/99\0']
+    sessions = [(reqs, None)]
+    for k_unl in (0, 1):
+        for errno_ in (2, 5):
+            sessions.append(([b'foop/12\0', b'todo/7\0'], (0, k_unl, errno_)))
+            sessions.append(([b'todo/7\0', b'foop/12\0'], (0, k_unl, errno_)))
+    sessions.append(([b'foop/12\0', b'todo/8'], None))          # input ends in the middle of a request
+    bad = {}
+    n_req = n_unl = 0
+
+    def viol(key, text, tr):
+        bad.setdefault(key, (text, tr))
+    for rq, fail in sessions:
+        H = CleanSession(rq, fail)
+        eng = Engine(db, prog, H, max_states=120000)
+        eng.run(main, {})
+        rep.count_states(eng.states, eng.transitions)
+        if len(H.ends) != 1:
+            raise AnalysisBroken('qmail-clean main: %d ends for a scripted session of %d requests' % (len(H.ends), len(rq)))
+        ev, tr = H.ends[0]
+        for k, req in enumerate(rq):
+            mine = [e for e in ev if e[1] == k]
+            if not req.endswith(b'\0'):
+                if mine:
+                    viol('rejected-request-changes-nothing', 'the input ends inside the request %r and qmail-clean acts on it: %s' % (req, mine), tr)
+                continue
+            n_req += 1
+            f_ = (fail[1], fail[2]) if fail is not None and fail[0] == k else None
+            wunl, wans = clean_reference(req, f_)
+            unl = [e[2] for e in mine if e[0] == 'unlink']
+            ans = [e[2] for e in mine if e[0] == 'answer']
+            n_unl += len(unl)
+            what = 'request %r%s: ' % (req, (' (unlink number %d fails with errno %d)' % (f_[0] + 1, f_[1])) if f_ else '')
+            if len(ans) != 1 or len(ans[0] or b'') != 1:
+                viol('exactly-one-status-byte-per-request', what + 'answers %s' % ans, tr)
+                continue
+            if mine and mine[-1][0] != 'answer':
+                viol('no-unlink-after-an-answer', what + 'the sequence is %s' % [(e[0], e[2]) for e in mine], tr)
+            if wans == b'x':
+                if unl:
+                    key = ('unlink-needs-7<=len<=100' if not 7 <= len(req) <= 100 else 'unlink-needs-NUL-terminated-request' if not req.endswith(b'\0') else
+                           'unlink-needs-all-digits-5..len-2' if not req[5:-1].isdigit() else 'unlink-needs-5-byte-keyword')
+                    viol(key, what + 'qmail-clean unlinks %s; a request that does not name a message number after "foop/" or "todo/" must change nothing' % unl, tr)
+                elif ans[0] != b'x':
+                    viol('rejected-request-changes-nothing', what + 'the answer is %r, documented "x"' % ans[0], tr)
+                continue
+            if unl != wunl:
+                if sorted(unl) == sorted(wunl):
+                    viol('removal-order:%s' % req[:5].decode(), what + 'unlinks %s; documented order %s' % (unl, wunl), tr)
+                elif unl[:len(wunl)] == wunl or wunl[:len(unl)] == unl:
+                    viol('plus-only-after-the-whole-removal-sequence', what + 'unlinks %s; documented %s' % (unl, wunl), tr)
+                else:
+                    viol('unlink-path-is-prefix+validated-id', what + 'unlinks %s; documented %s' % (unl, wunl), tr)
+            if ans[0] != wans:
+                viol('plus-only-after-the-whole-removal-sequence', what + 'the answer is %r after unlinking %s; documented %r' % (ans[0], unl, wans), tr)
+    if n_req < 30 or n_unl < 20:
+        if not bad:
+            raise AnalysisBroken('qmail-clean main: %d requests / %d unlinks explored' % (n_req, n_unl))
+
+    class R:
+        pass
+    H = R()
+    H.sites = {}
+    for k in ('exactly-one-status-byte-per-request', 'no-unlink-after-an-answer', 'plus-only-after-the-whole-removal-sequence', 'rejected-request-changes-nothing',
+              'removal-order:foop/', 'removal-order:todo/', 'unlink-needs-5-byte-keyword', 'unlink-needs-7<=len<=100', 'unlink-needs-NUL-terminated-request',
+              'unlink-needs-all-digits-5..len-2', 'unlink-path-is-prefix+validated-id'):
+        H.sites[k] = (k not in bad, 'qmail-clean.c:main', bad[k][0] if k in bad else '%d requests, %d unlinks' % (n_req, n_unl), bad[k][1] if k in bad else [])
+    H.n_req, H.n_unl = n_req, n_unl
+
+    class Eng:
+        states = 0
+    return H, Eng()
 
 
 def run(ctx):
@@ -258,8 +432,8 @@ def run(ctx):
             continue        # removal order is a clause of C02, reported there
         r1.check(ok, inst, where, detail, path)
     r1.expect_min(7)
-    r1.note(request_lengths_explored=LENS, byte_values_per_position=256, abstract_states=eng.states)
-    rep.sample({'qmail-clean request model': 'lengths %s, every byte value per position, keyword via memcmp outcomes' % LENS})
+    r1.note(requests_explored=H.n_req, unlinks_explored=H.n_unl)
+    rep.sample({'qmail-clean request model': 'concrete sessions: valid requests, 16 kinds of malformed requests, the boundary lengths, unlink failures (ENOENT and EIO) at each position, input ending inside a request'})
 
     # ---------- 2. literal lengths
     lint_literal_lengths(db, rep)
